@@ -62,6 +62,7 @@ pub fn new_src(id: Id, script: &Script, k: K, sh: Rc<WrapShared>, cb_drop: Rc<Ce
         pe_this_dispatch: 0,
         excused: false,
         rereg_at_start: 0,
+        old_loop: false,
         was_disabled: false,
         reenabled: false,
         rereg_count_expected: 0,
@@ -202,7 +203,8 @@ pub fn exec_op(sim: &Sim, op: &Op, in_cb: bool) {
         }
     }
     match op {
-        Op::Nop | Op::Dispatch(_) | Op::DropLoop | Op::Run { .. } | Op::BlockOn { .. } => {}
+        Op::Nop | Op::Dispatch(_) | Op::DropLoop | Op::NewLoop | Op::Run { .. } | Op::BlockOn { .. } => {}
+        Op::ReinsertKept(id) => reinsert_kept(sim, *id),
         Op::InsertPing { id, script } => {
             let Some(h) = handle(sim) else { return };
             if sim.st.borrow().srcs.contains_key(id) {
@@ -293,7 +295,7 @@ pub fn exec_op(sim: &Sim, op: &Op, in_cb: bool) {
         Op::InsertGeneric { id, fd, interest, mode, keep, script } => insert_generic(sim, *id, *fd, *interest, *mode, *keep, script),
         Op::Remove(id) => {
             let Some(h) = handle(sim) else { return };
-            let Some(tok) = sim.st.borrow().srcs.get(id).and_then(|s| s.token) else { return };
+            let Some(tok) = sim.st.borrow().srcs.get(id).filter(|s| !s.old_loop).and_then(|s| s.token) else { return };
             let before = h.verif_stats();
             let was_inserted = sim.st.borrow().srcs.get(id).map(|s| s.inserted).unwrap_or(false);
             let enabled_before = sim.st.borrow().srcs.get(id).map(|s| s.enabled).unwrap_or(false);
@@ -356,7 +358,7 @@ pub fn exec_op(sim: &Sim, op: &Op, in_cb: bool) {
         }
         Op::Disable(id) => {
             let Some(h) = handle(sim) else { return };
-            let Some((tok, inserted, enabled, indet)) = sim.st.borrow().srcs.get(id).and_then(|s| s.token.map(|t| (t, s.inserted, s.enabled, s.indeterminate))) else { return };
+            let Some((tok, inserted, enabled, indet)) = sim.st.borrow().srcs.get(id).filter(|s| !s.old_loop).and_then(|s| s.token.map(|t| (t, s.inserted, s.enabled, s.indeterminate))) else { return };
             let own = in_own_processing(sim, *id);
             // C18's proviso: the parent's own register and unregister calls alternate
             if inserted && !enabled && matches!(sim.st.borrow().srcs.get(id).map(|s| &s.k), Some(K::Trans(_))) {
@@ -408,7 +410,7 @@ pub fn exec_op(sim: &Sim, op: &Op, in_cb: bool) {
         }
         Op::Enable(id) => {
             let Some(h) = handle(sim) else { return };
-            let Some((tok, inserted, enabled, indet)) = sim.st.borrow().srcs.get(id).and_then(|s| s.token.map(|t| (t, s.inserted, s.enabled, s.indeterminate))) else { return };
+            let Some((tok, inserted, enabled, indet)) = sim.st.borrow().srcs.get(id).filter(|s| !s.old_loop).and_then(|s| s.token.map(|t| (t, s.inserted, s.enabled, s.indeterminate))) else { return };
             // documented exclusions: enable() of the running source; enable() of a source
             // that is not disabled is outside the documented use
             if in_own_processing(sim, *id) || (inserted && enabled && !indet) {
@@ -448,7 +450,7 @@ pub fn exec_op(sim: &Sim, op: &Op, in_cb: bool) {
         }
         Op::Update(id) => {
             let Some(h) = handle(sim) else { return };
-            let Some((tok, inserted, enabled, indet)) = sim.st.borrow().srcs.get(id).and_then(|s| s.token.map(|t| (t, s.inserted, s.enabled, s.indeterminate))) else { return };
+            let Some((tok, inserted, enabled, indet)) = sim.st.borrow().srcs.get(id).filter(|s| !s.old_loop).and_then(|s| s.token.map(|t| (t, s.inserted, s.enabled, s.indeterminate))) else { return };
             let own = in_own_processing(sim, *id);
             // update() of a disabled source: whether it reports Ok or an error is not
             // specified, but it is not enable(): the source stays disabled (C07)
@@ -692,7 +694,7 @@ pub fn exec_op(sim: &Sim, op: &Op, in_cb: bool) {
             let Some((tok, disp, inserted, enabled)) = ({
                 let st = sim.st.borrow();
                 st.srcs.get(id).and_then(|s| match &s.k {
-                    K::Timer(t) => t.disp.clone().and_then(|d| s.token.map(|tok| (tok, d, s.inserted, s.enabled))),
+                    K::Timer(t) => t.disp.clone().filter(|_| !s.old_loop).and_then(|d| s.token.map(|tok| (tok, d, s.inserted, s.enabled))),
                     _ => None,
                 })
             }) else {
@@ -1053,6 +1055,56 @@ fn insert_generic_with(
     }
 }
 
+/// register_dispatcher() of a Dispatcher the program kept, for a source that is not inserted
+/// (removed earlier, or left behind by a loop that has been dropped).
+fn reinsert_kept(sim: &Sim, id: Id) {
+    let Some(h) = handle(sim) else { return };
+    let disp = {
+        let st = sim.st.borrow();
+        let Some(s) = st.srcs.get(&id) else { return };
+        if s.inserted || !s.kept || s.indeterminate || s.in_processing > 0 || s.sh.unwrapped.get() {
+            return;
+        }
+        match &s.k {
+            K::Generic(g) if !g.released && !g.unusable => g.disp.clone(),
+            _ => None,
+        }
+    };
+    let Some(disp) = disp else { return };
+    let r = guarded(sim, "register_dispatcher", || h.register_dispatcher(disp).map_err(|e| e.to_string()));
+    let Some(r) = r else { return };
+    let fault = std::mem::replace(&mut sim.hk.borrow_mut().fault_window, false);
+    let now = sim.now_ns();
+    let mut st = sim.st.borrow_mut();
+    let s = st.srcs.get_mut(&id).unwrap();
+    s.exp[0] += 1;
+    match r {
+        Ok(tok) => {
+            s.token = Some(tok);
+            s.reg_key = Some(tok.verif_key());
+            s.inserted = true;
+            s.enabled = true;
+            s.removed_in_own_cb = false;
+            s.old_loop = false;
+            model_reregistered(s, now);
+            if fault {
+                s.indeterminate = true;
+            }
+            st.key_to_id.insert(tok.verif_key(), id);
+            drop(st);
+            sim.probe("kept_dispatcher_reinserted");
+        }
+        Err(e) => {
+            if fault {
+                s.indeterminate = true;
+            } else {
+                drop(st);
+                sim.violate("op.unexpected_result", vec!["reinsert".into()], format!("registering the kept dispatcher of source {} again failed: {}", id, e));
+            }
+        }
+    }
+}
+
 /// Dispatcher::into_source_inner on a kept dispatcher of a removed source.
 fn take_source(sim: &Sim, id: Id) {
     enum D {
@@ -1175,6 +1227,7 @@ pub fn env_allowed(op: &Op) -> bool {
             | Op::PeerClose(_)
             | Op::Wake(_)
             | Op::StreamPush(_)
+            | Op::StreamPushMany(..)
             | Op::StreamEnd(_)
             | Op::Wakeup
             | Op::AdapterPeerWrite(..)
